@@ -129,6 +129,7 @@ def run(module, cfg_text=None, cfg_file=None, workdir=None, workers=None, args=(
     jopts = ["-XX:+UseSerialGC" if workers <= 4 else "-XX:+UseParallelGC", "-Xmx" + heap, "-XX:TieredStopAtLevel=1"
              ] if workers <= 2 else ["-XX:+UseParallelGC", "-XX:ParallelGCThreads=%d" % min(8, workers), "-Xmx" + heap]
     jopts.append("-Xss256m")     # recursive operators over netlists / traces need a deep Java stack
+    jopts.append("-Djava.io.tmpdir=" + meta)      # TLC's own temporary directories go with the scratch directory
     if deque:
         jopts.append("-Dtlc2.tool.queue.IStateQueue=StateDeque")
     cmd = ["java"] + jopts + ["-cp", JAR, "tlc2.TLC", "-metadir", meta, "-noGenerateSpecTE"]
